@@ -312,17 +312,17 @@ int parse_directives(AsmContext *asm_context)
     else
   if (strcmp(token, "ifdef") == 0)
   {
-    parse_ifdef(asm_context, 0);
+    if (parse_ifdef(asm_context, 0) != 0) { return -1; }
   }
     else
   if (strcmp(token, "ifndef") == 0)
   {
-    parse_ifdef(asm_context, 1);
+    if (parse_ifdef(asm_context, 1) != 0) { return -1; }
   }
     else
   if (strcmp(token, "if") == 0)
   {
-    parse_if(asm_context);
+    if (parse_if(asm_context) != 0) { return -1; }
   }
     else
   if (strcmp(token, "endif") == 0)
@@ -330,11 +330,12 @@ int parse_directives(AsmContext *asm_context)
     if (asm_context->ifdef_count < 1)
     {
       printf("Error: unmatched .endif at %s:%d\n",
-        asm_context->tokens.filename, asm_context->ifdef_count);
+        asm_context->tokens.filename, asm_context->tokens.line);
       return -1;
     }
 
-    return 0;
+    // Ends the assemble() that parse_ifdef_ignore() started for this branch.
+    return 5;
   }
     else
   if (strcmp(token, "else") == 0)
@@ -343,7 +344,7 @@ int parse_directives(AsmContext *asm_context)
     {
       printf("Error: Unmatched .else at %s:%d\n",
         asm_context->tokens.filename,
-        asm_context->ifdef_count);
+        asm_context->tokens.line);
       return -1;
     }
 
